@@ -186,7 +186,7 @@ theorem login_ok_iff (norm : String → String) (cfg : Config) (st : SessState)
     (basic : Option (String × String)) (id role : String) (tok : Wire) :
     (loginConfigFile norm cfg st basic).1 = .ok id role tok ↔
       ∃ raw pw u r, basic = some (raw, pw) ∧ id = norm raw ∧
-        cfg.users.lookup id = some u ∧ u.hash = ⟨norm pw, id, u.salt⟩ ∧ role = u.role ∧
+        cfg.users.lookup id = some u ∧ u.hash = .term ⟨norm pw, id, u.salt⟩ ∧ role = u.role ∧
         cfg.roles.lookup u.role = some r ∧ r.isAllowed .Login none = true ∧
         tok = .sealed true cfg.key st.nonce (.session id role) := by
   constructor
@@ -270,5 +270,78 @@ theorem foldl_sound (norm : String → String) (cfg : Config) (ops : List Op) (s
   induction ops generalizing st with
   | nil => exact hs
   | cons op ops ih => exact ih _ (step_sound norm cfg st op hs)
+
+/-! ## Genuine bearer strings: who the first two arms of the chain accept -/
+
+/-- `w` is a credential of somebody under `cfg`: the admin token verbatim, or (config-file provider)
+the canonical encoding of a session sealed under this instance's key whose role is configured. -/
+def Genuine (cfg : Config) (w : Wire) : Prop :=
+  w = .text cfg.adminToken ∨
+  (cfg.authType = .configFile ∧
+    ∃ n u r role, w = .sealed true cfg.key n (.session u r) ∧ cfg.roles.lookup r = some role)
+
+/-- The first two arms of the chain (legacy admin token, primary provider). -/
+def tokenArms (cfg : Config) (st : SessState) (h : Header) : AuthRes :=
+  if (legacyProvider cfg h).isOk then legacyProvider cfg h else (primaryProvider cfg st h).1
+
+theorem authenticate_fst_arms (cfg : Config) (st : SessState) (h : Header) (t : Transport) :
+    (authenticate cfg st h t).1 =
+      if (tokenArms cfg st h).isOk then tokenArms cfg st h else unixProvider cfg t := by
+  unfold authenticate tokenArms
+  by_cases hl : (legacyProvider cfg h).isOk = true <;> simp [hl]
+
+theorem tokenArms_absent (cfg : Config) (st : SessState) : (tokenArms cfg st .absent).isOk = false := by
+  unfold tokenArms legacyProvider primaryProvider
+  cases cfg.authType <;> simp [adminProvider, configFileProvider, AuthRes.isOk]
+
+/-- The bearer arms accept a string iff it is genuine – for both provider configurations. -/
+theorem tokenArms_isOk_iff (cfg : Config) (st : SessState) (hs : CacheSound cfg.key st) (w : Wire) :
+    (tokenArms cfg st (.bearer w)).isOk = true ↔ Genuine cfg w := by
+  unfold tokenArms legacyProvider primaryProvider Genuine
+  cases hty : cfg.authType with
+  | adminToken =>
+    by_cases hw : w = .text cfg.adminToken <;> simp [adminProvider, hw, AuthRes.isOk]
+  | configFile =>
+    by_cases hw : w = .text cfg.adminToken
+    · simp [adminProvider, hw, AuthRes.isOk]
+    · simp only [adminProvider, hw, if_false, AuthRes.isOk, Bool.false_eq_true, false_or, true_and]
+      rw [configFileProvider_fst cfg st _ hs]
+      simp only
+      cases hd : decodeFresh cfg.key w with
+      | none =>
+        simp only [Bool.false_eq_true, false_iff, not_exists, not_and]
+        intro n u r role hwe
+        have : decodeFresh cfg.key w = some ⟨u, r⟩ := (decodeFresh_some_iff _ _ _).mpr ⟨n, hwe⟩
+        rw [hd] at this
+        cases this
+      | some s =>
+        obtain ⟨n, hn⟩ := (decodeFresh_some_iff _ _ _).mp hd
+        simp only [authFromSession]
+        cases hr : cfg.roles.lookup s.role with
+        | none =>
+          simp only [Bool.false_eq_true, false_iff, not_exists, not_and]
+          intro n' u r role hwe
+          rw [hn] at hwe
+          simp only [Wire.sealed.injEq, true_and, Plain.session.injEq] at hwe
+          obtain ⟨_, _, hr'⟩ := hwe
+          rw [← hr', hr]
+          simp
+        | some ro =>
+          simp only [true_iff]
+          exact ⟨n, s.user, s.role, ro, hn, hr⟩
+
+/-- A bearer string that is not genuine is worth exactly as much as no `Authorization` header: in
+both cases the chain answers what the Unix-socket arm answers. -/
+theorem not_genuine_as_absent (cfg : Config) (st : SessState) (hs : CacheSound cfg.key st) (w : Wire)
+    (hw : ¬ Genuine cfg w) (t : Transport) :
+    (authenticate cfg st (.bearer w) t).1 = unixProvider cfg t ∧
+    (authenticate cfg st .absent t).1 = unixProvider cfg t := by
+  have h1 : (tokenArms cfg st (.bearer w)).isOk = false := by
+    cases h : (tokenArms cfg st (.bearer w)).isOk with
+    | false => rfl
+    | true => exact absurd ((tokenArms_isOk_iff cfg st hs w).mp h) hw
+  constructor
+  · rw [authenticate_fst_arms, h1]; rfl
+  · rw [authenticate_fst_arms, tokenArms_absent]; rfl
 
 end KM.Http
